@@ -1,0 +1,9 @@
+//! Verification hooks (cargo feature `verif_hooks`, off by default).
+//!
+//! Thin, add-only wrappers that expose crate-private functions and state to the external
+//! verification harness. Nothing here changes behaviour; with the feature off this module
+//! is not compiled.
+#![allow(missing_docs, dead_code, clippy::all)]
+
+pub mod scalars;
+pub mod events;
